@@ -94,7 +94,10 @@ SPECIAL = {
     # the node counts have no usable default (the constructors raise "Number of x-nodes must be specified")
     'ExplosiveArc': Entry(kwargs=lambda rng: dict(xnodes=21, ynodes=41, t_f=1.0), grid=True, slow=True),
     'RateStick': Entry(kwargs=lambda rng: dict(xnodes=11, ynodes=11, t_f=2.0), grid=True, slow=True),
-    'Guderley': Entry(slow=True, points=pts1(0.2, 1.0), t=lambda rng: -0.5),
+    # gamma = 3 solves in half a second, the default 1.4 takes minutes per call (the C01/C02 Guderley oracles use it sparingly);
+    # times before the collapse and after the reflection
+    'Guderley': Entry(kwargs=lambda rng: dict(gamma=3.0), slow=True, points=pts1(0.2, 1.0),
+                      t=lambda rng: rng.choice([-0.5, -0.5, 1.0 + 0.5 * rng.random()])),
     'CylindricalSandwich': Entry(points=pts2((0.1, 0.9), (0.1, 1.0)), dim=2, slow=True),
     'Hutchens2': Entry(points=pts2((0.1, 0.9), (0.1, 0.9)), dim=2),
     'Rectangle': Entry(points=pts2((0.1, 0.9), (0.1, 0.9)), dim=2),
